@@ -144,7 +144,19 @@ def kwargs_model(ctx, fv) -> T.Dict[str, T.Callable[[], rl.R]]:
     elif yy in ("str(year % 100)", "str(year - 2000)"):
         model["yy"] = ("strs", sorted({str(y % 100) for y in range(2000, 2100)}))
     else:
-        raise AnalysisError(f"C20: kwargs['yy'] expression not enumerated: `{yy}`")
+        # any other constant expression over the year: folded for every year of the quantifier
+        vals_ = []
+        for y_ in range(2000, 2100):
+            try:
+                vals_.append(ctx.prog.fold(fv.module, assigns["yy"][0], {"year": y_, fv.params[0]: None}))
+            except AnalysisError:
+                raise AnalysisError(f"C20: kwargs['yy'] expression not enumerated: `{yy}`")
+        if all(isinstance(v_, str) for v_ in vals_):
+            model["yy"] = ("strs", sorted(set(vals_)))
+        elif all(isinstance(v_, int) and not isinstance(v_, bool) for v_ in vals_):
+            model["yy"] = ("strs", sorted({str(v_) for v_ in vals_}))
+        else:
+            raise AnalysisError(f"C20: kwargs['yy'] expression has mixed types: `{yy}`")
     ctx.require("yyyy" in assigns and unparse(assigns["yyyy"][0]) == "year", "kwargs['yyyy'] shape changed")
     model["yyyy"] = ("ints", ("ints", 2000, 2099))
     ctx.require("BID" in assigns and unparse(assigns["BID"][0]).startswith("int("), "kwargs['BID'] shape changed")
@@ -317,6 +329,106 @@ def run(ctx) -> None:
     cal = formats.calendar_domains(prog, "v1version.cal_info", (2000, 2099))
     pfn = prog.function("v1version._parse_field_values")
     _reader_range_rule(ctx, pfn, {k: v[0] for k, v in cal.items()}, "R1")
+
+    # the reader expands a two-digit {yy} to the year the renderer took it from: + 2000 for every value 00..99
+    pcfg_ = cfgs.get(pfn.fq)
+    ppc_ = PathCond(pcfg_)
+    exps = [n for n in pcfg_.nodes if n.kind == "stmt" and n.id in pcfg_.reachable() and
+            ((isinstance(n.ast, ast.AugAssign) and isinstance(n.ast.op, ast.Add) and unparse(n.ast.target) == "year") or
+             (isinstance(n.ast, ast.Assign) and unparse(n.ast.targets[0]) == "year" and isinstance(n.ast.value, ast.BinOp) and isinstance(n.ast.value.op, ast.Add)
+              and any(isinstance(x, ast.Name) and x.id == "year" for x in ast.walk(n.ast.value))))]
+    ctx.check("R1", len(exps) == 1, "v1 reader: one expansion of the two-digit year", "v1version._parse_field_values: two-digit years are not expanded", f"{len(exps)} expansion statements", loc=pfn.loc())
+    if len(exps) == 1:
+        n_ = exps[0]
+        r_ = ppc_.reach(n_.id).drop_unused()
+        val_e = n_.ast.value if isinstance(n_.ast, ast.AugAssign) else None
+        wrong_y = None
+        for y_ in range(0, 100):
+            f_ = r_
+            undecided = False
+            for a_ in list(r_.atoms):
+                tree_ = ast.parse(a_, mode="eval").body
+                if {x.id for x in ast.walk(tree_) if isinstance(x, ast.Name)} <= {"year"}:
+                    try:
+                        f_ = f_.restrict(a_, bool(prog.fold(pfn.module, tree_, {"year": y_})))
+                    except AnalysisError:
+                        undecided = True
+                else:
+                    f_ = f_.exists(a_)
+            applied = (not undecided) and f_.drop_unused().is_true()
+            add = None
+            if val_e is not None:
+                try:
+                    add = prog.fold(pfn.module, val_e, {"year": y_})
+                except AnalysisError:
+                    add = None
+            if (not applied or add != 2000) and wrong_y is None:
+                wrong_y = {"yy": f"{y_:02}", "expanded": applied, "added": add}
+        ctx.check("R1", wrong_y is None, "v1 reader: every two-digit year 00..99 is expanded by 2000 (what {yy} was rendered from)",
+                  "v1version._parse_field_values: a rendered {yy} does not read back as the year it was rendered from",
+                  f"{wrong_y}: the version reads back as another year (e.g. `v00.0033` as year 0, or 2069..2099 as 19xx) and the next rendering is rejected by its own pattern" if wrong_y else "",
+                  loc=pfn.loc(n_.ast), witness=wrong_y)
+
+    # {pep440_version} for a legacy version pattern: the mapping follows from the pattern itself
+    #   v stripped, {build} -> .{BID}, {release} -> {pep440_tag}; {pycalver} -> {pep440_pycalver}; {semver} unchanged
+    npf = prog.function("v1patterns._normalized_pattern")
+    ctx.visit(npf.fq)
+    vp_param = npf.params[0]
+    pairs: T.Dict[str, str] = {}
+    ncfg = cfgs.get(npf.fq)
+    npc = PathCond(ncfg)
+    def _is_ph(e_: ast.AST) -> bool:
+        try:
+            return prog.fold(npf.module, e_) == "{pep440_version}"
+        except AnalysisError:
+            return False
+    for n in ncfg.nodes:
+        if n.kind != "stmt" or n.id not in ncfg.reachable() or not isinstance(n.ast, (ast.Assign, ast.Return)) or n.ast.value is None:
+            continue
+        for v in [c_ for c_ in ast.walk(n.ast.value) if isinstance(c_, ast.Call)]:
+          if isinstance(v.func, ast.Attribute) and v.func.attr == "replace" and len(v.args) == 2 and _is_ph(v.args[0]):
+            rep = shapes.inline(npf, v.args[1], prog, consts=False)
+            rep_txt = const_str(rep)
+            if rep_txt is None:
+                try:
+                    fv_ = prog.fold(npf.module, rep)
+                    rep_txt = fv_ if isinstance(fv_, str) else None
+                except AnalysisError:
+                    rep_txt = None
+            if rep_txt is not None:
+                # branch form: the reach condition names the version pattern
+                r_ = npc.reach(n.id).drop_unused()
+                eqs = [a_ for a_ in r_.atoms if r_.implies(BF.var(a_)) and a_.startswith(f"{vp_param} == ")]
+                for a_ in eqs:
+                    pairs[ast.literal_eval(a_.split(" == ", 1)[1])] = rep_txt
+            elif isinstance(rep, ast.Subscript) and unparse(rep.slice) == vp_param:
+                try:
+                    tab = prog.fold(npf.module, rep.value)
+                except AnalysisError:
+                    tab = None
+                if isinstance(tab, dict):
+                    pairs.update({k_: v_ for k_, v_ in tab.items() if isinstance(k_, str) and isinstance(v_, str)})
+            elif isinstance(rep, ast.Call) and isinstance(rep.func, ast.Attribute) and rep.func.attr == "get":
+                try:
+                    tab = prog.fold(npf.module, rep.func.value)
+                except AnalysisError:
+                    tab = None
+                if isinstance(tab, dict):
+                    pairs.update({k_: v_ for k_, v_ in tab.items() if isinstance(k_, str) and isinstance(v_, str)})
+    ctx.floor("R1", "legacy version patterns with a {pep440_version} mapping", len(pairs), 4)
+
+    def derive(vp: str) -> str:
+        if vp == "{pycalver}":
+            return "{pep440_pycalver}"
+        if vp == "{semver}":
+            return "{semver}"
+        out_ = vp[1:] if vp.startswith("v") else vp
+        return out_.replace("{build}", ".{BID}").replace("{release}", "{pep440_tag}")
+    for vp, rep in sorted(pairs.items()):
+        ctx.check("R1", rep == derive(vp), f"_normalized_pattern: {{pep440_version}} of {vp!r} is {derive(vp)!r}",
+                  "v1patterns._normalized_pattern: the {pep440_version} search pattern does not follow from the version pattern",
+                  f"{vp!r} -> {rep!r}, expected {derive(vp)!r}: a file pattern using {{pep440_version}} never matches what was written for that version pattern", loc=npf.loc(),
+                  witness={"version_pattern": vp, "mapped": rep})
 
     # ---------------------------------------------------------------- R2
     from checks.c01 import full_match_rule
